@@ -12,7 +12,7 @@ use vh::{run_main, Ctx, Local};
 
 fn pool() -> Vec<String> {
     let mut v = vec![];
-    let spec: [(&str, &[&str]); 15] = [
+    let spec: [(&str, &[&str]); 17] = [
         ("a", &["", ":5", ":10", ":-1", ":x", ":", ":0", ":100", ":-2147483648", ":2147483647"]),
         ("b", &["", ":5", ":10", ":-5", ":9", ":-2147483647", ":2147483648"]),
         ("a-alias", &["", ":10"]),
@@ -20,6 +20,8 @@ fn pool() -> Vec<String> {
         ("perm", &["", ":10"]),
         ("fn", &["", ":10"]),
         ("tpl", &["", ":10"]),
+        ("bin", &[":6"]),
+        ("vid", &[":11"]),
         // names that contain the priority separator: loaded (`ns:a`) and not loaded (`zzz:1`)
         ("ns:a", &["", ":7"]),
         ("zzz:1", &[":9"]),
